@@ -2,7 +2,7 @@
    (Spec/C03_Spec.r_accepts), the reference state being the ring of the C02 model state the
    shared state stands for. *)
 From Boltons Require Import Lib.Prelude Lib.C03_Syntax Lib.C03_Conc Model.C03_Model Spec.C03_Spec
-     Proofs.C03_Link1 Proofs.C03_Link2 Proofs.C03_Link4 Proofs.C03_Link3 Proofs.C03_SpecLink.
+     Proofs.C03_Link1 Proofs.C03_Link2 Proofs.C03_Link4 Proofs.C03_Link3 Proofs.C03_SpecLink Proofs.C03_FinalOk.
 From Boltons Require Lib.C02_Syntax Spec.C02_Spec Model.C02_Model Proofs.C02_Inv.
 
 Theorem op_accepted_by_c03_spec tb c s m o :
@@ -19,5 +19,11 @@ Proof.
     apply (spec_accept_link c (I2.abs m) o o1 out (I2.abs m')); assumption.
   - pose proof (op_link_all tb c Hmax s m o SF) as OL. unfold c02_op in OL. rewrite T in OL.
     destruct (run_op tb c s o) as [s' r].
-    destruct o; simpl in T; try discriminate; destruct OL as [Er SF']; subst r; exists m; (split; [exact SF'|unfold r_accepts, r_step; rewrite rv_eqb_refl; reflexivity]).
+    destruct o; simpl in T; try discriminate; destruct OL as [Er SF']; subst r; exists m; (split; [exact SF'|]);
+      try (unfold r_accepts, r_step; rewrite rv_eqb_refl; reflexivity).
+    (* Snapshot: the sorted items of the storage are exactly the items of the ring *)
+    destruct (final_items_ok c s' m SF') as [F1 [F2 _]].
+    unfold view_items in F1, F2. rewrite (stands_for_store _ _ _ SF') in F1, F2.
+    unfold r_accepts. rewrite F1, F2. reflexivity.
+
 Qed.
